@@ -24,23 +24,36 @@ func TestMain(m *testing.M) { hx.Main(m) }
 
 var hC08 = hx.New("C08", "rapid-generated histories of 1..10 client operations (GetStatus, GetRules, AddRule, DeleteRule, DeleteRules and every Set* in WaitForReply mode) on one AuditClient over a simulated kernel; per operation a generated script: ack errno (0 or any errno 1..133), unsolicited sequence-0 audit records and runs of up to 9 transient EINTR/EAGAIN receive failures before every datagram, optional reply with a foreign sequence number, generated status structs (32..48 bytes) and rule payloads, an errno at a chosen delete of DeleteRules; start sequence incl. values just below 2^32. Oracle: result nil <=> every ack had errno 0 and no foreign reply; otherwise errors.Is(err, errno) (AddRule/EEXIST: the documented 'rule exists'); returned data equals what the kernel sent; requests carry the UAPI message type, REQUEST|ACK and the caller's payload. Non-trivial = history with an operation that has errno != 0, an interleaved event, a transient failure or a foreign reply; distinct by hash of the history")
 
+// Noise is what the client meets before one datagram of the answer: Events unsolicited records, then the
+// transient failures Fails, then Seq — an arbitrary interleaving of unsolicited records (0) and transient
+// failures (errno) with at most 9 failures in a row.
 type Noise struct {
 	Events int   `json:"events,omitempty"`
 	Fails  []int `json:"fails,omitempty"` // errno values of transient receive failures (EINTR 4, EAGAIN 11)
+	Seq    []int `json:"seq,omitempty"`
 }
 
 type Op08 struct {
-	Op       string   `json:"op"`
-	U32      uint32   `json:"u32,omitempty"`
-	Bool     bool     `json:"bool,omitempty"`
-	Errno    int      `json:"errno,omitempty"`
-	Foreign  bool     `json:"foreign,omitempty"`
-	Status   []byte   `json:"status,omitempty"`
-	Rules    [][]byte `json:"rules,omitempty"`
-	Rule     []byte   `json:"rule,omitempty"`
-	DelErrAt int      `json:"del_err_at"`
-	DelErrno int      `json:"del_errno,omitempty"`
-	Noise    []Noise  `json:"noise,omitempty"`
+	Op      string `json:"op"`
+	U32     uint32 `json:"u32,omitempty"`
+	Bool    bool   `json:"bool,omitempty"`
+	Errno   int    `json:"errno,omitempty"`
+	Foreign bool   `json:"foreign,omitempty"`
+	// Fault replaces the normal answer to the first request of the operation by something that is not an
+	// acknowledgement with errno 0, so the call must not return nil:
+	//   "send"      the socket refuses the request (Send returns FaultErrno)
+	//   "recv"      the receive of the ack fails with a non-transient error (FaultErrno)
+	//   "shortack"  the NLMSG_ERROR message carries fewer than 4 bytes of payload
+	//   "acktype"   a message with the right sequence number but another type than NLMSG_ERROR
+	//   "silence"   nothing arrives at all (only generated rarely: the client waits 10 x 50 ms)
+	Fault      string   `json:"fault,omitempty"`
+	FaultErrno int      `json:"fault_errno,omitempty"`
+	Status     []byte   `json:"status,omitempty"`
+	Rules      [][]byte `json:"rules,omitempty"`
+	Rule       []byte   `json:"rule,omitempty"`
+	DelErrAt   int      `json:"del_err_at"`
+	DelErrno   int      `json:"del_errno,omitempty"`
+	Noise      []Noise  `json:"noise,omitempty"`
 }
 
 type C08Case struct {
@@ -52,7 +65,7 @@ func (c C08Case) Describe() string {
 	var b strings.Builder
 	fmt.Fprintf(&b, "start sequence %d\n", c.StartSeq)
 	for i, o := range c.Ops {
-		fmt.Fprintf(&b, " %d %s arg=%d/%v ack-errno=%d foreign=%v status=%x rules=%x rule=%x delErrAt=%d delErrno=%d noise=%v\n", i, o.Op, o.U32, o.Bool, o.Errno, o.Foreign, o.Status, o.Rules, o.Rule, o.DelErrAt, o.DelErrno, o.Noise)
+		fmt.Fprintf(&b, " %d %s fault=%q/%d arg=%d/%v ack-errno=%d foreign=%v status=%x rules=%x rule=%x delErrAt=%d delErrno=%d noise=%v\n", i, o.Op, o.Fault, o.FaultErrno, o.U32, o.Bool, o.Errno, o.Foreign, o.Status, o.Rules, o.Rule, o.DelErrAt, o.DelErrno, o.Noise)
 	}
 	return b.String()
 }
@@ -76,6 +89,16 @@ func genNoise(t *rapid.T, eagainBudget *int) []Noise {
 			}
 			nz.Fails = append(nz.Fails, e)
 		}
+		// interleaving: runs of failures separated by unsolicited records
+		for r, runs := 0, rapid.SampledFrom([]int{0, 0, 1, 2, 3}).Draw(t, "runs"); r < runs; r++ {
+			for j, k := 0, rapid.SampledFrom([]int{1, 3, 6, 9}).Draw(t, "runlen"); j < k; j++ {
+				nz.Seq = append(nz.Seq, int(syscall.EINTR))
+			}
+			nz.Seq = append(nz.Seq, 0)
+		}
+		if len(nz.Fails) > 0 && len(nz.Seq) > 0 {
+			nz.Seq = append([]int{0}, nz.Seq...) // keep the two failure runs apart
+		}
 		out = append(out, nz)
 	}
 	return out
@@ -89,6 +112,10 @@ func genOp08(t *rapid.T, eagainBudget *int) Op08 {
 		o.Errno = rapid.OneOf(rapid.SampledFrom(errnoChoices), rapid.IntRange(1, 133)).Draw(t, "errno") // any errno the kernel knows
 	}
 	o.Foreign = rapid.IntRange(0, 9).Draw(t, "foreign") == 0
+	if !o.Foreign && rapid.IntRange(0, 7).Draw(t, "fault") == 0 {
+		o.Fault = rapid.SampledFrom([]string{"send", "send", "recv", "recv", "shortack", "acktype"}).Draw(t, "faultkind")
+		o.FaultErrno = rapid.SampledFrom([]int{int(syscall.ENOBUFS), int(syscall.EBADF), int(syscall.ECONNREFUSED), int(syscall.EPERM), int(syscall.EMSGSIZE), int(syscall.ENOTCONN)}).Draw(t, "faulterrno")
+	}
 	o.Status = rapid.SliceOfN(rapid.Byte(), 44, 44).Draw(t, "status")[:rapid.SampledFrom([]int{32, 36, 40, 44, 44, 44}).Draw(t, "statuslen")]
 	for i, n := 0, rapid.IntRange(0, 5).Draw(t, "nrules"); i < n; i++ {
 		o.Rules = append(o.Rules, rapid.SliceOfN(rapid.Byte(), 0, 60).Draw(t, "rulebytes"))
@@ -121,6 +148,11 @@ func event(i int) []byte {
 // scripted installs the kernel behaviour of one operation.
 func scripted(k *simk.K, o Op08) {
 	noiseIdx, evIdx, delCount := 0, 0, 0
+	faulted := false
+	k.SendErr = nil
+	if o.Fault == "send" {
+		k.SendErr = syscall.Errno(o.FaultErrno)
+	}
 	push := func(d []byte) {
 		if len(o.Noise) > 0 {
 			nz := o.Noise[noiseIdx%len(o.Noise)]
@@ -136,12 +168,35 @@ func scripted(k *simk.K, o Op08) {
 				}
 				k.Fail(syscall.Errno(e))
 			}
+			for _, e := range nz.Seq {
+				if e == 0 {
+					k.Push(event(evIdx))
+					evIdx++
+				} else {
+					k.Fail(syscall.Errno(e))
+				}
+			}
+			if n := len(nz.Seq); n > 0 && nz.Seq[n-1] != 0 {
+				_ = n
+			}
 		}
 		k.Push(d)
 	}
 	k.OnSend = func(k *simk.K, s simk.Sent) {
 		if o.Foreign {
 			push(simk.Ack(s.Seq+7, 0, s.Type))
+			return
+		}
+		if o.Fault != "" && !faulted {
+			faulted = true
+			switch o.Fault {
+			case "recv":
+				k.Fail(syscall.Errno(o.FaultErrno)) // and no acknowledgement ever arrives
+			case "shortack":
+				push(simk.Msg(syscall.NLMSG_ERROR, 0, s.Seq, 0, make([]byte, o.FaultErrno%4)))
+			case "acktype":
+				push(simk.Msg(syscall.NLMSG_DONE, 0, s.Seq, 0, []byte{0, 0, 0, 0}))
+			}
 			return
 		}
 		switch uint32(s.Type) {
@@ -227,6 +282,18 @@ func propC08(c C08Case) error {
 			err = cl.SetBacklogWaitTime(int32(o.U32), libaudit.WaitForReply)
 		}
 		what := fmt.Sprintf("op %d %s (ack errno %d, foreign %v)", i, o.Op, o.Errno, o.Foreign)
+		if o.Fault != "" {
+			if err == nil {
+				return fmt.Errorf("%s: fault %q (errno %d): the kernel never acknowledged the request with errno 0, but the call returned nil", what, o.Fault, o.FaultErrno)
+			}
+			if (o.Fault == "send" || o.Fault == "recv") && !errors.Is(err, syscall.Errno(o.FaultErrno)) {
+				hC08.Class("fault-error-does-not-wrap-errno") // informational: the property only demands an error
+			}
+			hC08.Class("op-with-fault-" + o.Fault)
+			nontrivial = true
+			k.SendErr = nil
+			continue
+		}
 		// the request the kernel saw
 		if len(k.Sent) <= sentBefore {
 			return fmt.Errorf("%s: no request was sent", what)
@@ -296,6 +363,13 @@ func propC08(c C08Case) error {
 		for _, nz := range o.Noise {
 			events += nz.Events
 			fails += len(nz.Fails)
+			for _, e := range nz.Seq {
+				if e == 0 {
+					events++
+				} else {
+					fails++
+				}
+			}
 		}
 		if wantErrno != 0 {
 			hC08.Class("op-with-errno")
